@@ -5,6 +5,7 @@ import Proofs.InterpBSE
 import Proofs.InterpStream
 import Proofs.InterpSorted
 import Proofs.InterpPass3
+import Proofs.InterpPass1Sorted
 /-!
 # C13 — Log-linear interpolation is the normalised weighted product of its inputs
 
@@ -263,6 +264,28 @@ theorem bse_shift64_witness : BSE.ubFree (List.replicate 32 2 ++ [1]) = false :=
 /-- non-vacuity: 25 entries of width 3 bits cross a 64-bit word boundary -/
 example : BSE.Below (List.replicate 25 6) (List.replicate 25 5) := by decide
 example : BSE.byteLength (List.replicate 25 6) = 10 := by decide
+
+/-! ## Pass 1 as a stream recursion -/
+
+/-- **Pass 1 on `SuffixOrder`-sorted streams.**  `handleSuffix` is the code's `HandleSuffix` (the
+same generic stream recursion as pass 2, one record per n-gram, inherited attribute = the
+per-component `(λᵢ·prob, from)` fallback; the k-way choice of the minimum among the component
+streams is abstracted into one merged stream per order).  For a union closed under dropping the
+first word, run on the `SuffixOrder`-sorted n-gram streams of the orders `1 … D+1` and started with
+the components' `<unk>` as fallback, it consumes every n-gram and writes `p1Rec` for each … -/
+theorem pass1_on_sorted_streams (cs : Comps Nat) (h : UnionSuffixClosed cs) (D fuel : Nat)
+    (hfuel : needE (sortedYg cs) D (sortedYg cs []) [] ≤ fuel) :
+    handleSuffix cs fuel ((List.range (D + 1)).map (fun j => p1Stream cs (j + 1))) [] (mergeFb cs []) =
+      (List.replicate (D + 1) [], (sortedYg cs []).flatMap (fun y => specP1 cs (sortedYg cs) D [y])) :=
+  pass1_sorted cs h D fuel hfuel
+
+/-- … and `p1Rec` carries exactly what pass 2 starts from: `Prob()` = Σᵢ λᵢ·(probability of the longest
+suffix of the n-gram in component i) and the `from` levels (`LM.merge`; cf. `pass12_refines`, where
+the back-offs charged according to `from` turn this into the weighted back-off score). -/
+theorem pass1_record_values {W : Type} [DecidableEq W] (cs : Comps W) (c : List W) (w : W) :
+    (p1Rec cs (c ++ [w])).prob = (cs.map (fun p => p.1 * (p.2.merge c w).1)).sum ∧
+    (p1Rec cs (c ++ [w])).from_ = cs.map (fun p => (p.2.merge c w).2) :=
+  p1Rec_values cs c w
 
 /-! ## Pass 2 as a stream recursion -/
 
